@@ -41,6 +41,7 @@ RULE = (
     "instant, right after the export and again after all later exports into the same folder. distinct = (session kind, exported contribution classes, fps bucket, overwrite, pre-existing folder, repeated "
     "export); non-trivial = at least one .vtu compared with >= 2 frames"
 )
+RULE += " A quarter of the multibody runs export a solution whose rigid-body quaternions were rescaled row by row (non-unit quaternions are legal coordinates)."
 RULE += " One run in 53 exports a long animation (1001-1150 frames of one contribution, every instant a frame); file names include ones that are prefixes of each other (a, a_0) and ones with brackets."
 RULE += " Rigid bodies may carry a visual mesh (box, offset / rotated in the body frame; mesh export and base export); time origins are arbitrary (t0 up to 1e5); fault F5b: a contribution whose export raises at its k-th frame, after which later exports on the same Export object must be unaffected."
 COMPONENTS = {
@@ -134,6 +135,10 @@ def gen(rng, tier, index):
         scene["t0"] = float(np.round(rng.uniform(1.0, 60.0), 3))
     elif x < 0.4:
         scene["t0"] = float(rng.choice([1000.0, 20000.0, 123456.0]) + np.round(rng.uniform(0, 1), 2))
+    if index % 4 == 3:
+        # a post-processed solution (or the dense output of an adaptive back end, which is not re-normalised step by
+        # step): rigid-body quaternions of non-unit length, which the bodies accept by contract
+        plan["quat_scale"] = True
     if index % 53 == 11:
         # a long animation: more than a thousand exported frames of one contribution (every instant is a frame)
         plan["solver"]["steps"] = 1001 + index % 150
@@ -349,6 +354,16 @@ def execute(plan, out, log):
                     raise Discard("run_failed")
                 sol = R.sol
             out["steps"] = len(sol.t) - 1
+            if plan.get("quat_scale") and B is not None:
+                qs = np.array(sol.q, dtype=float)
+                hit = False
+                for i, (b, body) in enumerate(zip(B.scene["bodies"], B.bodies)):
+                    if b["kind"] == "rigid":
+                        qs[:, body.qDOF[3:7]] *= (1.0 + 0.4 * np.sin(1.3 * np.arange(len(qs)) + i))[:, None]
+                        hit = True
+                if hit:
+                    sol.q = qs
+                    out["probes"]["non_unit_quaternions_exported"] += 1
             if plan.get("long"):
                 out["probes"]["more_than_1000_frames"] += 1
             folder = "vtk_out"
